@@ -5,6 +5,11 @@
 (*   verify  origin, q, t, kind, ce, soa, proof=[{owner,next,types}], verdict *)
 (*       origin = "forged"      records picked by the driver (any mixture);   *)
 (*                              verdict = what verify_nsec said               *)
+(*       origin = "forged-full" a forged response run through the whole       *)
+(*                              validator with real signatures (records with  *)
+(*                              exp = TRUE: a wildcard's NSEC + RRSIG renamed *)
+(*                              to an expanded owner); verdict = DnssecDns-   *)
+(*                              Handle's                                      *)
 (*       origin = "prescribed"  the proof RFC 4035 3.1.3 prescribes (computed *)
 (*                              by TLC in Gen_Nsec); verdict = verify_nsec    *)
 (*       origin = "server"      kind/ce/soa/proof are what hickory-dns' own   *)
@@ -14,7 +19,9 @@
 (* Every verify event is judged on its own with the operators of NsecOps:     *)
 (*   soundness     verdict = Secure  =>  Entails(proof, q, t, kind, ce)       *)
 (*   completeness  prescribed / server proof of a negative or wildcard        *)
-(*                 response  =>  verdict = Secure (and full = Secure)         *)
+(*                 response  =>  verdict = Secure (and full = Secure);        *)
+(*                 server's positive answer (incl. followed in-zone aliases)  *)
+(*                 with whatever NSEC it attached  =>  full = Secure          *)
 (* A rejected event prints one MISMATCH line that also says which single      *)
 (* dropped clause of the RFC reading would explain an unsound acceptance.     *)
 EXTENDS NsecOps, TLC, Json, IOUtils, FiniteSets
@@ -32,7 +39,8 @@ SetOf(s) == { s[i] : i \in DOMAIN s }
 ZoneOf(zs) ==
     LET names == { zs[i].n : i \in DOMAIN zs } IN
     [ n \in names |-> UNION { SetOf(zs[i].ty) : i \in { j \in DOMAIN zs : zs[j].n = n } } ]
-ProofOf(ps) == { [owner |-> ps[i].owner, next |-> ps[i].next, types |-> SetOf(ps[i].types)] : i \in DOMAIN ps }
+ProofOf(ps) == { [owner |-> ps[i].owner, next |-> ps[i].next, types |-> SetOf(ps[i].types),
+                   exp |-> ("exp" \in DOMAIN ps[i] /\ ps[i].exp)] : i \in DOMAIN ps }
 
 Init == l = 1 /\ apex = <<>> /\ zone = <<>> /\ cid = "none"
 
@@ -57,9 +65,12 @@ SoundE(ev) ==
     /\ (ev.origin = "server" /\ InScope(ev) /\ ev.full = "Secure" /\ Len(ev.proof) > 0) => (EntE(ev) \/ OpenE(ev))
 \* C08 completeness: the prescribed proof, and the proof hickory's own server attached to a
 \* response that has to be negative or wildcard-expanded, are accepted
+\* ... and so is whatever it attaches to a positive answer ("for every query"): a response that has
+\* to be a plain answer (data or an alias at the name, followed inside the zone or not) validates
 CompleteE(ev) ==
     CASE ev.origin = "prescribed" -> ev.verdict = "Secure"
       [] ev.origin = "server" /\ SkE(ev) # "none" -> ev.verdict = "Secure" /\ ev.full = "Secure"
+      [] ev.origin = "server" /\ HasZone /\ Lookup(zone, apex, ev.q, ev.t) = "answer" -> ev.full = "Secure"
       [] OTHER -> TRUE
 OkE(ev) == ev.verdict # "PANIC" /\ SoundE(ev) /\ CompleteE(ev)
 
